@@ -285,3 +285,7 @@ fn static_str(s: &'static str) -> Bytes {
 fn header(name: Bytes, value: Bytes) -> Header {
     Header { name, value }
 }
+
+// verification hook (compiled only under `cargo kani`, see /verif/MANIFEST.json hooks)
+#[cfg(kani)]
+include!(concat!(env!("VERIF_KANI_INC"), "/s3s_dto_event_stream.rs"));
